@@ -131,8 +131,8 @@ fn mk<'a>(id: &'a str, batch: &'a str, seed: u64, tier: Tier, runs: u64, known: 
 
 pub fn run_c05(tier: Tier, seed: u64, known: &KnownFindings) -> CheckReport {
     let w = TemplateWorld { prop: "C05", world_name: "templates-c05", kinds: all_kinds(), penalty: 0.4, faults: FaultMix::None, max_iters: (12, 40), evaluations_term: true, log: true, key_steps: &[] };
-    let b = run_batch(&w, &mk("C05", "templates-sequential", seed, tier, tier.pick(8_000, 400_000), known));
-    let bp = run_batch(&crate::checks::c08::SeqVsPar { prop: "C05", name: "seq-vs-par-c05" }, &mk("C05", "templates-parallel-evaluator", seed, tier, tier.pick(600, 40_000), known));
+    let b = run_batch(&w, &mk("C05", "templates-sequential", seed, tier, tier.pick(60_000, 1_500_000), known));
+    let bp = run_batch(&crate::checks::c08::SeqVsPar { prop: "C05", name: "seq-vs-par-c05" }, &mk("C05", "templates-parallel-evaluator", seed, tier, tier.pick(1_500, 60_000), known));
     let mut r = report("C05", tier, seed, "one case = (template, swarm-style valid parameters incl. boundary values, problem instance with or without penalty regions, termination, seed); after EVERY child execution of every sequential block, at every nesting level, every evaluated individual in the population stack (all scope levels), best-so-far, elitist archive, personal bests, global best and molecule memories must carry exactly F(solution) (bit equality); non-trivial = at least one step executed; distinct = distinct (component-kind sequence, objective calls, result, final state) fingerprints. templates-parallel-evaluator: the same audit while objectives are written by the simulated workers of problems::evaluate::Parallel under seeded schedules", vec![b, bp], &["problems::evaluate::Parallel on the simulated pool (parallel batch)"]);
     r.stubbed_components.push("rayon (simulated worker pool on shuttle threads) in the parallel batch".into());
     r
@@ -140,9 +140,9 @@ pub fn run_c05(tier: Tier, seed: u64, known: &KnownFindings) -> CheckReport {
 
 pub fn run_c06(tier: Tier, seed: u64, known: &KnownFindings) -> CheckReport {
     let w = TemplateWorld { prop: "C06", world_name: "templates-c06", kinds: all_kinds(), penalty: 0.3, faults: FaultMix::Evaluator, max_iters: (12, 40), evaluations_term: true, log: false, key_steps: &["PopulationEvaluator"] };
-    let b = run_batch(&w, &mk("C06", "templates-sequential", seed, tier, tier.pick(8_000, 400_000), known));
-    let bp = run_batch(&crate::checks::c08::SeqVsPar { prop: "C06", name: "seq-vs-par-c06" }, &mk("C06", "templates-parallel-evaluator", seed, tier, tier.pick(800, 60_000), known));
-    let bi = run_batch(&EvalIds, &mk("C06", "evaluator-identifiers", seed, tier, tier.pick(3_000, 100_000), known));
+    let b = run_batch(&w, &mk("C06", "templates-sequential", seed, tier, tier.pick(120_000, 3_000_000), known));
+    let bp = run_batch(&crate::checks::c08::SeqVsPar { prop: "C06", name: "seq-vs-par-c06" }, &mk("C06", "templates-parallel-evaluator", seed, tier, tier.pick(1_500, 60_000), known));
+    let bi = run_batch(&EvalIds, &mk("C06", "evaluator-identifiers", seed, tier, tier.pick(50_000, 1_000_000), known));
     let mut r = report("C06", tier, seed, "one case as in C05 plus the faults no-evaluator / wrong-evaluator-id; at every evaluation step: one objective call per individual of the pre-step population (multiset equality), order and solutions unchanged, all evaluated, counter advanced by the population size (0 for empty population / empty stack); at every step of any component: counter delta == objective calls in the step; at run end: reported evaluations == objective calls, budget overshoot smaller than the last pass; missing evaluator: Err, zero calls, zero steps; non-trivial = at least one evaluation step executed. templates-parallel-evaluator: identical monitors with Parallel on 1..8 simulated workers under seeded schedules (exactly once, count exact, under every explored interleaving). evaluator-identifiers: a configuration that evaluates through identifier Global/A/B with evaluators registered under a subset of them", vec![b, bp, bi], &["problems::evaluate::Parallel on the simulated pool (parallel batch)"]);
     r.stubbed_components.push("rayon (simulated worker pool on shuttle threads) in the parallel batch".into());
     r
@@ -260,34 +260,34 @@ impl World for EvalIds {
 
 pub fn run_c07(tier: Tier, seed: u64, known: &KnownFindings) -> CheckReport {
     let w = TemplateWorld { prop: "C07", world_name: "templates-c07", kinds: all_kinds(), penalty: 0.4, faults: FaultMix::None, max_iters: (12, 40), evaluations_term: true, log: false, key_steps: &["BestIndividualUpdate", "ElitistArchiveUpdate"] };
-    let b = run_batch(&w, &mk("C07", "templates-sequential", seed, tier, tier.pick(8_000, 400_000), known));
+    let b = run_batch(&w, &mk("C07", "templates-sequential", seed, tier, tier.pick(200_000, 4_000_000), known));
     let wa = TemplateWorld { prop: "C07", world_name: "templates-c07", kinds: vec![Kind::GaArchive, Kind::EsArchive], penalty: 0.4, faults: FaultMix::None, max_iters: (12, 40), evaluations_term: false, log: false, key_steps: &["ElitistArchiveUpdate"] };
-    let b2 = run_batch(&wa, &mk("C07", "archive-assemblies", seed, tier, tier.pick(3_000, 100_000), known));
+    let b2 = run_batch(&wa, &mk("C07", "archive-assemblies", seed, tier, tier.pick(60_000, 1_500_000), known));
     report("C07", tier, seed, "at every best-individual update: exists iff existed or population non-empty, <= min(population), <= before, replaced only by a strictly better member of the population; at run end for every template: reported best == minimum of the objective-call log; elitist archive (ga/es assembled with ElitistArchiveUpdate(k), k in {0,1,2,5,20}, and ElitistArchiveIntoPopulation): archived values == k smallest of (previous archive + population), members were shown, re-insertion leaves count max(before, 1); penalty regions supply ties at +inf; non-trivial = at least one update step executed", vec![b, b2], &[])
 }
 
 pub fn run_c16(tier: Tier, seed: u64, known: &KnownFindings) -> CheckReport {
     let w = TemplateWorld { prop: "C16", world_name: "templates-c16", kinds: SHIPPED.to_vec(), penalty: 0.0, faults: FaultMix::None, max_iters: (40, 120), evaluations_term: false, log: true, key_steps: &[] };
-    let b = run_batch(&w, &mk("C16", "templates-valid-parameters", seed, tier, tier.pick(12_000, 800_000), known));
+    let b = run_batch(&w, &mk("C16", "templates-valid-parameters", seed, tier, tier.pick(250_000, 6_000_000), known));
     let w2 = TemplateWorld { prop: "C16", world_name: "templates-c16", kinds: SHIPPED.to_vec(), penalty: 0.0, faults: FaultMix::ExtremeDraw, max_iters: (40, 120), evaluations_term: false, log: false, key_steps: &[] };
-    let b2 = run_batch(&w2, &mk("C16", "templates-extreme-draws", seed, tier, tier.pick(6_000, 400_000), known));
+    let b2 = run_batch(&w2, &mk("C16", "templates-extreme-draws", seed, tier, tier.pick(120_000, 3_000_000), known));
     report("C16", tier, seed, "one case = (one of the 21 shipped template constructors, parameters drawn from its documented valid ranges incl. boundaries: population 1-2, tournament = population, probabilities 0 and 1, y in {1,2}, small v_max, very unequal distances; instance; n in 0..120 iterations; seed); no failing fault, no penalty regions; oracle: run returns Ok without panic, iteration counter == n, n+1 condition tests, stack height at pass end == at pass begin for every pass of every loop, one population at the end, population size after every pass within the template's prescription; the extreme-draw batch forces one word of the random stream to 0 or u64::MAX (legal outputs); non-trivial = at least one step executed", vec![b, b2], &[])
 }
 
 pub fn run_c18(tier: Tier, seed: u64, known: &KnownFindings) -> CheckReport {
     let w = TemplateWorld { prop: "C18", world_name: "templates-c18", kinds: vec![Kind::Pso], penalty: 0.2, faults: FaultMix::None, max_iters: (25, 80), evaluations_term: false, log: false, key_steps: &["ParticleVelocitiesUpdate"] };
-    let b = run_batch(&w, &mk("C18", "pso-runs", seed, tier, tier.pick(5_000, 300_000), known));
+    let b = run_batch(&w, &mk("C18", "pso-runs", seed, tier, tier.pick(150_000, 3_000_000), known));
     report("C18", tier, seed, "PSO template runs over swarm sizes 1..12, dimension 1..5, c1,c2 in {0} u (0,3], weights in [0,1.2], v_max from 1e-3 to 10 domain widths; after every velocity update: |v| <= v_max, x_after == x_before + v_after exactly, v_after within the interval the update rule allows for the STORED inertia weight (an equality when c1 = c2 = 0); after the linear mapping: weight == start + (end-start)*progress exactly; personal best == best value the particle was ever evaluated at, never worse; global best value == min personal best; the three collections have equal length after every step; non-trivial = at least one velocity update executed", vec![b], &[])
 }
 
 pub fn run_c19(tier: Tier, seed: u64, known: &KnownFindings) -> CheckReport {
     let w = TemplateWorld { prop: "C19", world_name: "templates-c19", kinds: vec![Kind::AntSystem, Kind::Mmas], penalty: 0.0, faults: FaultMix::ExtremeDraw, max_iters: (60, 200), evaluations_term: false, log: false, key_steps: &["AcoGeneration"] };
-    let b = run_batch(&w, &mk("C19", "aco-runs", seed, tier, tier.pick(5_000, 300_000), known));
+    let b = run_batch(&w, &mk("C19", "aco-runs", seed, tier, tier.pick(120_000, 2_500_000), known));
     report("C19", tier, seed, "both ACO templates over 2..8 cities, distance matrices incl. ratios up to 1e12, 0..8 ants, alpha,beta in [0,5], rho in [0,1], bounds, up to 200 iterations (long-evaporated trails), extreme draws; after generation: ants+1 tours, each a permutation of all cities starting at 0, unevaluated; after update: pm_after == (1-rho)*pm_before + deposits recomputed from the rewarded tours on exactly the consecutive-city edges in both directions (relative tolerance 1e-9), symmetric, finite, >= 0, max-min: within bounds; non-trivial = at least one generation executed", vec![b], &[])
 }
 
 pub fn run_c20(tier: Tier, seed: u64, known: &KnownFindings) -> CheckReport {
     let w = TemplateWorld { prop: "C20", world_name: "templates-c20", kinds: vec![Kind::Cro], penalty: 0.0, faults: FaultMix::None, max_iters: (60, 300), evaluations_term: false, log: false, key_steps: &["OnWallIneffectiveCollisionUpdate", "DecompositionUpdate", "IntermolecularIneffectiveCollisionUpdate", "SynthesisUpdate"] };
-    let b = run_batch(&w, &mk("C20", "cro-runs", seed, tier, tier.pick(5_000, 300_000), known));
+    let b = run_batch(&w, &mk("C20", "cro-runs", seed, tier, tier.pick(100_000, 2_000_000), known));
     report("C20", tier, seed, "CRO template runs over its nine parameters (buffer 0, initial KE 0, alpha 0, large beta, mole_coll in {0,1} included), up to 300 iterations; around every reaction update: sum of objective values + kinetic energies + buffer unchanged within 1e-9 relative, no negative kinetic energy or buffer, one molecule record per individual, uninvolved (individual, molecule) pairs unchanged and in order, exactly two populations consumed; non-trivial = at least one reaction update executed", vec![b], &[])
 }
